@@ -10,8 +10,19 @@ line on stdout, then `procExit(1)`).
 Text is `List Char`.  The stdout of a function is taken *after* `fmtGotOutput` (every line trimmed,
 the whole trimmed); declared text is taken after the loader's `TrimSpace` per line.
 
-The only parameter (`Cfg`) is whether the early-exit block of each loop prints a `FAIL` line; it is
-regenerated from the source on every run (`extract/c30_extract.go` → `Gen/C30.lean`).
+Which output belongs to which function.  A package may print while it is initialised (global
+initialisers, `init` functions); that happens inside `Module.RunFunc` when the module instance is
+created lazily, i.e. in the same call that runs the *first* function on a fresh instance (the very
+first one, and the first after every reload that follows an expected-panic function).  Init output
+is NOT part of any function's output: `Behaviour.out` is what the function body itself prints and
+the contract (`meets`) only looks at that.  `RunFunc` implements this by resetting its capture
+buffers after the instantiation and before the call; where the reset sits is the parameter
+`Cfg.initOutputLeaks`.  Globals persist between functions on one instance and are re-initialised
+by a reload (`SFn`, `resolve`).
+
+The parameters (`Cfg`): whether the early-exit block of each loop prints a `FAIL` line, and whether
+init output leaks into the first function's captured stdout; regenerated from the source on every
+run (`extract/c30_extract.go` → `Gen/C30.lean`).
 -/
 namespace WaVerif.C30
 
@@ -45,15 +56,21 @@ structure Fn where
   selected : Bool          -- matches the `-run` pattern (or no pattern given)
   decl : Decl
   beh : Behaviour
+  /-- it is the first function run on a freshly created module instance (so the package's
+      initialisation runs inside the same `RunFunc` call) -/
+  fresh : Bool
   deriving DecidableEq, Repr
 
 structure Cfg where
   testAbortFAIL : Bool      -- Tests loop: early-exit block prints `FAIL …` before `os.Exit(1)`
   exampleAbortFAIL : Bool   -- Examples loop: same
+  /-- `Module.RunFunc` does NOT reset its stdout/stderr buffers between the lazy instantiation
+      and the call, so init output is prepended to the first function's captured stdout -/
+  initOutputLeaks : Bool
   deriving DecidableEq, Repr
 
-def cfgPinned : Cfg := ⟨false, false⟩
-def cfgRepaired : Cfg := ⟨true, true⟩
+def cfgPinned : Cfg := ⟨false, false, false⟩
+def cfgRepaired : Cfg := ⟨true, true, false⟩
 
 /-! ## constants -/
 def panicPrefix : Text := ['p', 'a', 'n', 'i', 'c', ':', ' ']
@@ -88,6 +105,14 @@ def obs (b : Behaviour) : Text × RunErr :=
   | .exits n => (b.out, .exitErr n)
   | .traps => (b.out, .other)
 
+/-- normalised concatenation of two pieces of stdout -/
+def joinOut (a b : Text) : Text := if a = [] then b else if b = [] then a else a ++ ('\n' :: b)
+
+/-- the stdout `RunFunc` hands to the runner for `f` (normalised): the function's own output,
+preceded by the package's init output only if the buffers are not reset after instantiation -/
+def captured (cfg : Cfg) (initOut : Text) (f : Fn) : Text :=
+  if cfg.initOutputLeaks && f.fresh then joinOut initOut (obs f.beh).1 else (obs f.beh).1
+
 /-- `exitCode, _ := wazero.AsExitError(err)` -/
 def exitCodeOf : RunErr → Nat
   | .exitErr n => n
@@ -110,18 +135,17 @@ inductive Res | pass | failed | abort
 
 def abortFAIL (cfg : Cfg) (f : Fn) : Bool := if f.isExample then cfg.exampleAbortFAIL else cfg.testAbortFAIL
 
-/-- one iteration of either loop (they differ only in what the early exit dumps) -/
-def runFn (cfg : Cfg) (f : Fn) : List Line × Res :=
+/-- one iteration of either loop (they differ only in what the early exit dumps), given what
+`RunFunc` returned: normalised stdout `got` and the error `err` -/
+def runFnCore (cfg : Cfg) (f : Fn) (got : Text) (err : RunErr) : List Line × Res :=
   let info := declInfo f.decl
-  let o := obs f.beh
   let expect := info.1
-  let got := o.1
   if info.2 then
     -- `if t.OutputPanic { … continue }`
-    if exitCodeOf o.2 = 0 then ([.header f.name, .expectPanicGotNil], .failed)
+    if exitCodeOf err = 0 then ([.header f.name, .expectPanicGotNil], .failed)
     else if (panicPrefix ++ expect).isPrefixOf got then ([], .pass)
     else ([.header f.name, .expectPanic expect got], .failed)
-  else if o.2 ≠ .none then
+  else if err ≠ .none then
     -- `if err != nil { dump; os.Exit(1) }`: a test always prints err.Error() (stderr is empty),
     -- an example prints only its stdout, if any
     ((if f.isExample && got.isEmpty then [] else [.dump]) ++ (if abortFAIL cfg f then [.fail] else []), .abort)
@@ -129,30 +153,83 @@ def runFn (cfg : Cfg) (f : Fn) : List Line × Res :=
   else if expect ≠ [] then ([.header f.name, .expectOut expect got], .failed)
   else ([], .pass)
 
-/-- the rest of the run after some functions; `failed` = `firstError != nil` -/
-def runAll (cfg : Cfg) : List Fn → Bool → List Line × Nat
+def runFn (cfg : Cfg) (initOut : Text) (f : Fn) : List Line × Res :=
+  runFnCore cfg f (captured cfg initOut f) (obs f.beh).2
+
+/-- the rest of the run after some functions (already in execution order: Tests, then Examples);
+`failed` = `firstError != nil` -/
+def runAll (cfg : Cfg) (initOut : Text) : List Fn → Bool → List Line × Nat
   | [], failed => if failed then ([.fail], 1) else ([.ok], 0)
   | f :: rest, failed =>
     if f.selected then
-      match runFn cfg f with
-      | (ls, .pass) => let r := runAll cfg rest failed; (ls ++ r.1, r.2)
-      | (ls, .failed) => let r := runAll cfg rest true; (ls ++ r.1, r.2)
+      match runFn cfg initOut f with
+      | (ls, .pass) => let r := runAll cfg initOut rest failed; (ls ++ r.1, r.2)
+      | (ls, .failed) => let r := runAll cfg initOut rest true; (ls ++ r.1, r.2)
       | (ls, .abort) => (ls, 1)
-    else runAll cfg rest failed
+    else runAll cfg initOut rest failed
+
+/-- the run over functions whose behaviour is already resolved -/
+def runList (cfg : Cfg) (initOut : Text) (l : List Fn) : List Line × Nat := runAll cfg initOut l false
+
+/-! ## module state: package initialisation, globals, reload -/
+
+/-- what the package does when a module instance is created -/
+structure Pkg where
+  initOut : Text     -- normalised text printed by global initialisers / `init`
+  g0 : Nat           -- value `init` gives to the package's global counter
+  deriving DecidableEq, Repr
+
+/-- a function as written: it may add to the global counter and print its value before the rest -/
+structure SFn where
+  name : Text
+  isExample : Bool
+  selected : Bool
+  decl : Decl
+  bump : Nat          -- `Bump(k)`: counter += k, first statement
+  printsG : Bool      -- `println(Counter())`, second statement
+  out : Text          -- the rest of its own output
+  end_ : End
+  deriving DecidableEq, Repr
+
+def natText (n : Nat) : Text := (toString n).toList
+
+/-- the function's own behaviour when the counter is `g` on entry -/
+def SFn.behAt (s : SFn) (g : Nat) : Behaviour :=
+  ⟨if s.printsG then joinOut (natText (g + s.bump)) s.out else s.out, s.end_⟩
+
+def isPanicDecl : Decl → Bool
+  | .panic _ => true
+  | _ => false
+
+/-- thread the module state through the functions in execution order: the counter persists on one
+instance; after an expected-panic function that ended with a non-zero exit code the runner builds a
+new instance (`wazero.BuildModule`), whose initialisation runs with the next function -/
+def resolve (pkg : Pkg) : List SFn → Nat → Bool → List Fn
+  | [], _, _ => []
+  | s :: rest, g, fresh =>
+    if s.selected then
+      let b := s.behAt g
+      let reload := isPanicDecl s.decl && exitCodeOf (obs b).2 != 0
+      ⟨s.name, s.isExample, true, s.decl, b, fresh⟩ ::
+        (if reload then resolve pkg rest pkg.g0 true else resolve pkg rest (g + s.bump) false)
+    else ⟨s.name, s.isExample, false, s.decl, s.behAt g, false⟩ :: resolve pkg rest g fresh
+
+/-- Tests first, then Examples, each in declaration order -/
+def ordered (l : List SFn) : List SFn := l.filter (fun f => !f.isExample) ++ l.filter (fun f => f.isExample)
+
+/-- the functions of a suite with the behaviour each one actually shows in the state it runs in -/
+def resolved (pkg : Pkg) (l : List SFn) : List Fn := resolve pkg (ordered l) pkg.g0 true
 
 inductive Suite
   | loadError                 -- the package does not load / compile: error printed, `os.Exit(1)`
   | noTestFiles
-  | fns (l : List Fn)
+  | fns (pkg : Pkg) (l : List SFn)
   deriving Repr
-
-/-- Tests first, then Examples, each in declaration order -/
-def ordered (l : List Fn) : List Fn := l.filter (fun f => !f.isExample) ++ l.filter (fun f => f.isExample)
 
 def run (cfg : Cfg) : Suite → List Line × Nat
   | .loadError => ([.dump], 1)
   | .noTestFiles => ([.noTestFiles], 0)
-  | .fns l => runAll cfg (ordered l) false
+  | .fns pkg l => runList cfg pkg.initOut (resolved pkg l)
 
 /-! ## the contract (the property's side) -/
 def meets : Decl → Behaviour → Bool
